@@ -761,6 +761,8 @@ fn parse_replay(path: &str) -> Vec<TdCase> {
 }
 
 pub fn run(opts: &Options) -> Report {
+    // the premise `1 <= tau` of the C14 theorems is a fact about the constant the code uses
+    assert!(TAU >= 1, "ckb_constant::consensus::TAU is {}", TAU);
     let mut rep = Report::default();
     rep.rule = "function-level cases for verify_total_difficulty/verify_tau/compact_to_difficulty/\
         calculate_tau_exponent/check_total_difficulty_limit: (A) random legal epoch histories (0..4000 \
